@@ -640,8 +640,7 @@ def _do_chain(item):
     bi, chain = item
     b = _BLOCKS[bi]
     out = {"n": 0, "st": {}, "viols": [], "executed": 0, "maxparses": 0, "capped": 0, "slow": 0.0, "samples": []}
-    posgen = gen.prelude_positions if b.get("prelude") else gen.positions
-    for pos in posgen(chain, b["kp"], b["rich"], kpmin=b.get("kpmin", 0)):
+    for pos in gen.block_positions(b, chain):
         if _TERM_ABORTS[0] > MAX_TERM_VIOLS_PER_WORKER or _WORK_ABORTS[0] > MAX_WORK_ABORTS_PER_WORKER:
             out["capped"] += 1
             continue
@@ -923,7 +922,7 @@ def run(ctx):
         },
         part_a_pairs=na,
         part_a_chains=len(items),
-        part_a_blocks={b["id"]: {k: b[k] for k in ("segs", "words", "kf", "kp", "rich", "exec", "prelude")} for b in _BLOCKS},
+        part_a_blocks={b["id"]: {k: b[k] for k in ("segs", "words", "kf", "kp", "rich", "exec", "prelude", "family", "fields", "eols") if k in b} for b in _BLOCKS},
         part_a_status=sta,
         part_a_program_executions=executed,
         part_a_both_rejected=sta.get("agree-rejected", 0),
